@@ -20,7 +20,7 @@ func init() { registerPart("C04", "TestC04", jsonReplay(checkC04)) }
 func checkC04(c RoutingCase) (vs []*Violation) {
 	st := stats.For("C04", "TestC04")
 	rec := harness.NewRecorder()
-	ct, p := buildDispatchOnly(c.Table, c.Router, rec, 0)
+	ct, p := buildRouting(c, rec, 0)
 	if p != nil {
 		return []*Violation{viol("", "building the table panicked: %v", p)}
 	}
@@ -30,7 +30,7 @@ func checkC04(c RoutingCase) (vs []*Violation) {
 		if !model.CleanPath(req.Path) {
 			continue
 		}
-		o := harness.Do(ct, rec, req, harness.ViaDispatch, strconv.Itoa(i))
+		o := harness.Do(ct, rec, req, viaOf(c), strconv.Itoa(i))
 		if o.Panic != "" {
 			vs = append(vs, viol("", "%s %s %q: Dispatch panicked: %s", c.Router, req.Method, req.Path, o.Panic))
 			continue
